@@ -57,3 +57,15 @@ Example C10_side_condition_inhabited : forall d fc m w,
   Forall plain_event (step_events (s_step d fc m w)) /\ Forall no_journal_event (step_events (s_step d fc m w)) /\
   Forall (fun e => is_jp_event e = false) (step_events (s_step d fc m w)).
 Proof. intros. split; [apply s_step_plain|split; [apply s_step_no_journal|apply s_step_no_jp]]. Qed.
+
+From Verif Require Import Model.ScriptInst Proofs.Exec_examples.
+(** non-vacuity: a concrete, non-trivial execution meets the premises of the frame theorems above (a top-level CALL with
+    value that stores, CALLs with value through a pre join point into a contract that stores and then halts exceptionally,
+    and stops): it terminates within the fuel, records two nodes, and the failed inner frame leaves no trace in the world *)
+Example C10_premises_met_by_a_concrete_run :
+  exists r s', ex_call true true 50 0 ex_script_A ex_caller ex_A [] 100000 7 ex_state = Some (r, s') /\
+    r_err r = None /\ length (calls (tc (xt s'))) = 2%nat /\
+    s_balance (xw s') ex_A = 7 /\ s_balance (xw s') ex_B = 0 /\
+    aget eq_nn (sw_stor (xw s')) (ex_A, 1) = Some 5 /\ aget eq_nn (sw_stor (xw s')) (ex_B, 2) = None /\
+    (15 <= length (xe s'))%nat.
+Proof. exact ex_top_run. Qed.
